@@ -3,6 +3,7 @@ pub mod bdd;
 pub mod cnf;
 pub mod lru;
 pub mod sat;
+pub mod sdd;
 pub mod table;
 
 use crate::core::World;
@@ -12,9 +13,10 @@ static LRU: lru::LruWorld = lru::LruWorld;
 static BDD: bdd::BddWorld = bdd::BddWorld;
 static SAT: sat::SatWorld = sat::SatWorld;
 static CNF: cnf::CnfWorld = cnf::CnfWorld;
+static SDD: sdd::SddWorld = sdd::SddWorld;
 
 pub fn all() -> Vec<&'static dyn World> {
-    vec![&TABLE, &LRU, &BDD, &SAT, &CNF]
+    vec![&TABLE, &LRU, &BDD, &SAT, &CNF, &SDD]
 }
 
 pub fn lookup(name: &str) -> Option<&'static dyn World> {
